@@ -834,7 +834,7 @@ class TimedCompartment(Compartment):
         self.t = tvec
         self.dt = dt
         assert np.all(self.parameter.vals == self.parameter.vals[0]), "Duration parameter value cannot vary over time"
-        duration = self.parameter.vals[0] * self.parameter.timescale * self.parameter.scale_factor
+        duration = self.parameter.vals[0] * self.parameter.timescale  # nb. the calibration scale factor is already included in `vals`
         # The relative tolerance makes a duration of k steps up to floating point error give k rows e.g. (5/12)/(1/12) = 5.000000000000001
         self._vals = np.empty((max(1, math.ceil(duration / dt * (1 - 1e-12))), tvec.size), order="F")  # Fortran/column-major order should be faster for summing over lags to get `vals`
         self._vals.fill(np.nan)
@@ -1496,7 +1496,7 @@ class TimedLink(Link):
             # Note that the keyring size calculation is duplicated from TimedCompartment, this could be separated into a function if it is needed any more often than this
             parameter = self.pop.par_lookup[self.source.duration_group]
             assert np.all(parameter.vals == parameter.vals[0]), "Duration parameter value cannot vary over time"
-            duration = parameter.vals[0] * parameter.timescale * parameter.scale_factor
+            duration = parameter.vals[0] * parameter.timescale  # nb. the calibration scale factor is already included in `vals`
             self._vals = np.empty((math.ceil(duration / dt * (1 - 1e-12)), tvec.size), order="F")  # Fortran/column-major order should be faster for summing over lags to get `vals`
         self._vals.fill(np.nan)
 
